@@ -303,13 +303,16 @@ fn topy(a: &Arguments) -> String {
             )
         )
     });
+    // Arguments::defaults(): the iterator over the positional(-only) defaults
+    let defs = guard(|| list(a.defaults().map(show_default).collect()));
     format!(
-        "in={} to={} into={} from={} split={}",
+        "in={} to={} into={} from={} split={} defs={}",
         show_arguments(a),
         sh(t),
         sh(i),
         sh(f),
-        opt(split, |s| s)
+        opt(split, |s| s),
+        opt(defs, |s| s)
     )
 }
 
